@@ -37,7 +37,7 @@ func runC13(c *Ctx) {
 			ReadNeedsW:  true,
 			Exempt:      map[string]string{"dht.New": "constructor: the DHT is not yet shared and no stream handler is installed before the mode is set"},
 		}, "dht")
-		c.Check("mode accesses", 0, n >= 4, "the mode field is accessed in at least 4 guarded places", "found "+itoa(n))
+		c.Check("mode accesses", 0, n >= 2, "the mode field is accessed in at least 2 guarded places", "found "+itoa(n))
 		writers := map[string]string{"(*dht.IpfsDHT).moveToServerMode": "modeServer", "(*dht.IpfsDHT).moveToClientMode": "modeClient"}
 		nw := 0
 		for _, f := range p.Funcs() {
@@ -57,7 +57,7 @@ func runC13(c *Ctx) {
 				c.Check(K(f.Name, "writes mode"), acc.Sel.Pos(), ok && okVal, "the mode is written only by the two movers, each with its own constant", "unexpected writer or value")
 			}
 		}
-		c.Check("mode writers", 0, nw >= 4, "movers and constructor write the mode", "found "+itoa(nw))
+		c.Check("mode writers", 0, nw >= 2, "movers and constructor write the mode", "found "+itoa(nw))
 		// the movers set the field on every path
 		for fn := range writers {
 			f := c.Fn(fn)
@@ -128,7 +128,7 @@ func runC13(c *Ctx) {
 				}
 				isDir := func(e ast.Expr) bool {
 					s, ok := eng.Unparen(e).(*ast.SelectorExpr)
-					return ok && s.Sel.Name == "Direction" && eng.Mentions(info, s.X, eng.ObjOf(info, strm))
+					return ok && eng.NameOf(s.Sel) == "Direction" && eng.Mentions(info, s.X, eng.ObjOf(info, strm))
 				}
 				return (isDir(x) && isConst(info, y, "github.com/libp2p/go-libp2p/core/network.DirInbound")) || (isDir(y) && isConst(info, x, "github.com/libp2p/go-libp2p/core/network.DirInbound"))
 			})
@@ -207,7 +207,7 @@ func runC13(c *Ctx) {
 		okSet := len(set) == 1 && overServerProtocols(g, set[0], 0)
 		if okSet {
 			s, isSel := eng.Unparen(set[0].Args[1]).(*ast.SelectorExpr)
-			okSet = isSel && s.Sel.Name == "handleNewStream"
+			okSet = isSel && eng.NameOf(s.Sel) == "handleNewStream"
 		}
 		c.Check(K(g.Name, "installs handlers"), g.Pos(), okSet, "promotion installs handleNewStream for every server protocol", "no SetStreamHandler(p, dht.handleNewStream) in a loop over serverProtocols")
 	}
@@ -227,11 +227,11 @@ func runC13(c *Ctx) {
 		}
 		reach := func(name string) func(eng.Fact) bool {
 			return func(ft eng.Fact) bool {
-				if ft.Tag == nil || !ft.Truth {
-					return false
-				}
-				s, ok := eng.Unparen(ft.Tag).(*ast.SelectorExpr)
-				return ok && s.Sel.Name == "Reachability" && isConst(info, ft.Expr, "github.com/libp2p/go-libp2p/core/network."+name)
+				v, ok := eqOperand(ft, func(e ast.Expr) bool {
+					s, ok := eng.Unparen(e).(*ast.SelectorExpr)
+					return ok && eng.NameOf(s.Sel) == "Reachability"
+				})
+				return ok && isConst(info, v, "github.com/libp2p/go-libp2p/core/network."+name)
 			}
 		}
 		autoSrv := func(want bool) func(eng.Fact) bool {
@@ -344,15 +344,15 @@ func runC13(c *Ctx) {
 		cf := f.CFG()
 		info := f.Info()
 		cfgMode := func(ft eng.Fact, names ...string) bool {
-			if ft.Tag == nil || !ft.Truth {
-				return false
-			}
-			s, ok := eng.Unparen(ft.Tag).(*ast.SelectorExpr)
-			if !ok || s.Sel.Name != "Mode" {
+			v, ok := eqOperand(ft, func(e ast.Expr) bool {
+				s, ok := eng.Unparen(e).(*ast.SelectorExpr)
+				return ok && eng.NameOf(s.Sel) == "Mode"
+			})
+			if !ok {
 				return false
 			}
 			for _, n := range names {
-				if modeConst(info, ft.Expr, n) {
+				if modeConst(info, v, n) {
 					return true
 				}
 			}
@@ -385,7 +385,7 @@ func runC13(c *Ctx) {
 		// auto records the configured mode
 		okAuto := false
 		for _, as := range assignsTo(f, func(l ast.Expr) bool { return eng.IsField(info, l, "dht.IpfsDHT.auto") }) {
-			if s, ok := eng.Unparen(as.Rhs[0]).(*ast.SelectorExpr); ok && s.Sel.Name == "Mode" {
+			if s, ok := eng.Unparen(as.Rhs[0]).(*ast.SelectorExpr); ok && eng.NameOf(s.Sel) == "Mode" {
 				okAuto = true
 			}
 		}
